@@ -29,6 +29,8 @@ type mapInst struct {
 	m      int    // B-tree order
 	c      maps.Map[int, V]
 	probeK []int
+	name0  string
+	lite   bool  // scale scripts: Keys / Values / probes only (no iterator, Each, JSON key order or shape in every observation)
 	probeV []int // bidi: value universe for GetKey probes
 	ctr    int   // fresh value counter (non-bidi kinds)
 	shape  bool  // log the exported structure (C07)
@@ -44,8 +46,8 @@ func mapSorted(kind string) bool {
 func mapBidi(kind string) bool { return kind == "hashbidimap" || kind == "treebidimap" }
 
 func newMap(kind, cmp, vcmp string, m int) maps.Map[int, V] {
-	if cmp == "dflt" { // New(): built-in comparator, float keys (fam_dflt.go)
-		return newDefaultMap(kind, m)
+	if isDflt(cmp) { // New(): built-in comparator, keys of some ordered type behind int codes (fam_dflt.go)
+		return newDefaultMap(kind, cmp, m)
 	}
 	switch kind {
 	case "hashmap":
@@ -78,8 +80,8 @@ func (x *mapInst) Cfg() Ev {
 }
 
 func cfgCmp(c string) string {
-	if c == "dflt" {
-		return "nat" // the int codes of the float keys are in cmp.Compare order
+	if isDflt(c) {
+		return "nat" // the int codes of the keys are in cmp.Compare order
 	}
 	return baseCmp(c)
 }
@@ -155,8 +157,24 @@ func jsonKeyOrder(b []byte) []int {
 
 func (x *mapInst) Observe() Ev {
 	c := x.c
-	o := Ev{"keys": ints(c.Keys()), "vals": vints(c.Values()), "size": c.Size(), "empty": c.Empty(),
-		"name": firstLine(c.String())}
+	ks := c.Keys()
+	o := Ev{"keys": ints(ks), "vals": vints(c.Values()), "size": c.Size(), "empty": c.Empty()}
+	if x.lite && c.Size()%16 != 0 {
+		// String() of a tree is quadratic in its size (string concatenation): in the scale scripts it is called in every
+		// 16th size only; in between the name is what String() said at first (a function of the state either way)
+		if x.name0 == "" {
+			x.name0 = firstLine(newMap(x.kind, x.cmp, x.vcmp, x.m).String())
+		}
+		o["name"] = x.name0
+	} else {
+		o["name"] = firstLine(c.String())
+	}
+	ent := [][]any{} // the entries: every key Keys() lists, with what Get says about it
+	for _, k := range ks {
+		v, ok := c.Get(k)
+		ent = append(ent, []any{k, int(v), ok})
+	}
+	o["ent"] = ent
 	get := [][]any{}
 	for _, k := range x.probeK {
 		v, ok := c.Get(k)
@@ -177,7 +195,11 @@ func (x *mapInst) Observe() Ev {
 	hasNav, height := false, 0
 	iter, each, jkeys := [][]int{}, [][]int{}, []int{}
 	hasIter, hasEach, hasJ := false, false, false
-	switch t := c.(type) {
+	var cNav any = c
+	if x.lite {
+		cNav = nil
+	}
+	switch t := cNav.(type) {
 	case *rbt.Tree[int, V]:
 		hasNav, hasIter = true, true
 		if n := t.Left(); n != nil {
@@ -279,7 +301,7 @@ func (x *mapInst) Observe() Ev {
 	}
 	// beyond the listed properties: GetNode, Node.Size, AVL Node.Next / Node.Prev
 	gn, succ, nsz := [][]any{}, [][]any{}, -1
-	switch t := c.(type) {
+	switch t := cNav.(type) {
 	case *rbt.Tree[int, V]:
 		for _, p := range x.probeK {
 			if n := t.GetNode(p); n != nil {
@@ -531,7 +553,7 @@ func (u *mapUniverse) Calls(x Inst) []Call {
 		}
 		pairs = append(pairs, k, v)
 	}
-	if u.cmp == "dflt" {
+	if isDflt(u.cmp) {
 		return cs
 	}
 	if treeKind(u.kind) != "" && len(pairs) > 2 {
